@@ -58,7 +58,28 @@ impl Prop for C05 {
         let tiny = sweep || rng.chance(1, 6);
         let shape = if tiny { ShapeCfg::tiny() } else { ShapeCfg::swarm(rng) };
         let mut damage_fired: Vec<String> = Vec::new();
-        let (stream, head_len, toks) = match rng.below(10) {
+        let deep = !sweep && rng.chance(1, 40);
+        let (stream, head_len, toks) = match if deep { 99 } else { rng.below(10) } {
+            // (e) nesting that straddles the parser's depth limit, usually cut within a few bytes of the level where the
+            // limit applies (both front ends must fail the same way, in the same order of checks)
+            99 => {
+                let kind = *rng.pick(&["nested_members", "nested_named_begins", "nested_named_members", "nested_in_set", "nested_bare"]);
+                let depth = rng.range(120, 140) as u32;
+                let mut bytes = crate::props::c02::bomb(kind, depth);
+                let (_, _, toks, _) = refcodec::scan(&bytes);
+                if rng.chance(3, 4) {
+                    if let Some(t) = toks.iter().find(|t| t.depth >= 127) {
+                        let lo = t.start.saturating_sub(30);
+                        let hi = (t.start + 60).min(bytes.len() - 1);
+                        let cut = rng.usize(lo, hi.max(lo));
+                        bytes.truncate(cut);
+                    }
+                }
+                damage_fired.push("deep_nesting_at_limit".to_string());
+                let (_, _, toks, _) = refcodec::scan(&bytes);
+                let n = bytes.len();
+                (Stream::Raw(bytes), n, toks)
+            }
             // (c) damaged reference-encoded stream
             0..=3 => {
                 let w = gen_wmsg(rng, &shape);
@@ -301,13 +322,13 @@ impl Prop for C05 {
     }
 
     fn rule(&self) -> String {
-        "Each run: a seeded byte stream — (a) crate-encoded model message, (b) reference-encoded wire tree incl. forms the crate never emits, (c) either damaged by 1-3 Byzantine-printer / in-flight faults (so malformed and truncated streams are in the corpus), (d) tiny messages — plus payload; 1 run in 40 takes a stream of at most 14 (quick) / 17 (thorough) bytes and enumerates ALL 2^(n-1) compositions of it, plain and with a not-ready result before every chunk ('compositions_enumerated'). The blocking parser reads it unfragmented and always ready; the async parser reads the same bytes under a seeded schedule (composition into chunks, Pending with inline/deferred wake, spurious polls) on the scripted executor; an optional identical fault (EOF or I/O error kind at a byte offset) is applied to both. Oracle: equal outcome (content, offending tag, I/O kind, panic class) and equal trailing data, for parse and parse_parts; executor invariants (no lost wake-up, bounded polls). distinct_nontrivial = distinct hashes of the async source's observed call sequence among runs where a chunk boundary or Pending fell strictly inside the bytes the parser consumed (>= 9 consumed)."
+        "Each run: a seeded byte stream — (a) crate-encoded model message, (b) reference-encoded wire tree incl. forms the crate never emits, (c) either damaged by 1-3 Byzantine-printer / in-flight faults (so malformed and truncated streams are in the corpus), (d) tiny messages, (e) 1 run in 40: collections nested 120-140 deep (straddling the parser's depth limit), mostly cut within a few bytes of the level where the limit applies — plus payload; 1 run in 40 takes a stream of at most 14 (quick) / 17 (thorough) bytes and enumerates ALL 2^(n-1) compositions of it, plain and with a not-ready result before every chunk ('compositions_enumerated'). The blocking parser reads it unfragmented and always ready; the async parser reads the same bytes under a seeded schedule (composition into chunks, Pending with inline/deferred wake, spurious polls) on the scripted executor; an optional identical fault (EOF or I/O error kind at a byte offset) is applied to both. Oracle: equal outcome (content, offending tag, I/O kind, panic class) and equal trailing data, for parse and parse_parts; executor invariants (no lost wake-up, bounded polls). distinct_nontrivial = distinct hashes of the async source's observed call sequence among runs where a chunk boundary or Pending fell strictly inside the bytes the parser consumed (>= 9 consumed)."
             .into()
     }
     fn assumptions(&self) -> Vec<String> {
         vec![
             "sampled schedules and streams; exhaustive enumeration of all 2^(n-1) compositions is not claimed".into(),
-            "nesting depth of generated streams is <= 5, so the stack-depth clause of C02 cannot interfere".into(),
+            "nesting depth of generated streams is <= 5 except workload (e) at 120-140 levels, far below what a 2 MiB stack tolerates, so the stack-depth clause of C02 cannot interfere".into(),
         ]
     }
     fn components(&self) -> Value {
